@@ -326,11 +326,11 @@ func materialFieldsRead(b *ssa.BasicBlock) []string {
 		switch x := in.(type) {
 		case *ssa.Field:
 			if typeName(x.X.Type()) == "KeyMaterial" {
-				out = append(out, x.X.Type().Underlying().(*types.Struct).Field(x.Field).Name())
+				out = append(out, fname(x.X.Type().Underlying().(*types.Struct).Field(x.Field)))
 			}
 		case *ssa.FieldAddr:
 			if typeName(x.X.Type()) == "KeyMaterial" {
-				out = append(out, derefStruct(x.X.Type()).Field(x.Field).Name())
+				out = append(out, fname(derefStruct(x.X.Type()).Field(x.Field)))
 			}
 		case *ssa.Call:
 			if callID(&x.Call).is(modPath, "KeyBlock", "GetBytes") {
@@ -355,7 +355,7 @@ func c14G2Accessors(r *Run, t *formatTable) {
 				return false
 			}
 			_, fld, ok := fieldAddrOf(u.X)
-			return ok && fld.Name() == "KeyFormatType"
+			return ok && fname(fld) == "KeyFormatType"
 		}
 		perFormat := map[int64]map[string]bool{}
 		for _, pi := range discriminantPaths(fn, isDisc, t.all) {
@@ -451,7 +451,7 @@ func c14G2Builders(r *Run, t *formatTable) {
 		var fmtStores []*ssa.Store
 		allInstrs(fn, func(in ssa.Instruction) {
 			if st, ok := in.(*ssa.Store); ok {
-				if _, fld, ok := fieldAddrOf(st.Addr); ok && fld.Name() == "KeyFormatType" && typeName(st.Addr.(*ssa.FieldAddr).X.Type()) == "KeyBlock" {
+				if _, fld, ok := fieldAddrOf(st.Addr); ok && fname(fld) == "KeyFormatType" && typeName(st.Addr.(*ssa.FieldAddr).X.Type()) == "KeyBlock" {
 					fmtStores = append(fmtStores, st)
 				}
 			}
@@ -504,7 +504,7 @@ func c14G2Builders(r *Run, t *formatTable) {
 							continue
 						}
 						if fa, ok := s2.Addr.(*ssa.FieldAddr); ok && typeName(fa.X.Type()) == "KeyMaterial" {
-							fields[derefStruct(fa.X.Type()).Field(fa.Field).Name()] = true
+							fields[fname(derefStruct(fa.X.Type()).Field(fa.Field))] = true
 						}
 					}
 				}
